@@ -419,7 +419,7 @@ Fixpoint psize (c : cfg) (sizes : kmap Z) (t : pty) : res Z :=
   end.
 
 (* input_gates in run-length form: (number of parties, bits of each).  A single parameter of
-   type Array / ArrayConst becomes one party per element (the element size is only computed
+   type Array / ArrayConst / ArrayConstExpr becomes one party per element (the element size is only computed
    inside the loop, i.e. not at all for 0 elements). *)
 Definition wire_params (c : cfg) (sizes : kmap Z) (params : list pty) : res (list (Z * Z)) :=
   let split e (n : Z) :=
@@ -427,6 +427,7 @@ Definition wire_params (c : cfg) (sizes : kmap Z) (params : list pty) : res (lis
   match params with
   | [PArr e n] => split e (Z.of_N n)
   | [PArrC e k] => let* n := of_option (kget sizes (KC k)) in split e n
+  | [PArrE e x] => let* n := resolve_usize c 32 sizes x in split e n     (* 99088d3 *)
   | _ => mapM_res (fun t => let* s := psize c sizes t in Ok (1%Z, s)) params
   end.
 Definition total_bits (ig : list (Z * Z)) : Z :=
